@@ -356,6 +356,8 @@ where
         } else {
             // Switch to write guard and insert the handle first.
             drop(shard_read);
+            #[cfg(metrics_verif)]
+            metrics::verif::point("reg.gap.pre", &[]);
             let mut shard_write = shard.write().unwrap_or_else(PoisonError::into_inner);
             let v = if let Some((_, v)) = shard_write.raw_entry().from_key_hashed_nocheck(hash, key)
             {
@@ -390,6 +392,8 @@ where
         } else {
             // Switch to write guard and insert the handle first.
             drop(shard_read);
+            #[cfg(metrics_verif)]
+            metrics::verif::point("reg.gap.pre", &[]);
             let mut shard_write = shard.write().unwrap_or_else(PoisonError::into_inner);
             let v = if let Some((_, v)) = shard_write.raw_entry().from_key_hashed_nocheck(hash, key)
             {
@@ -424,6 +428,8 @@ where
         } else {
             // Switch to write guard and insert the handle first.
             drop(shard_read);
+            #[cfg(metrics_verif)]
+            metrics::verif::point("reg.gap.pre", &[]);
             let mut shard_write = shard.write().unwrap_or_else(PoisonError::into_inner);
             let v = if let Some((_, v)) = shard_write.raw_entry().from_key_hashed_nocheck(hash, key)
             {
